@@ -173,6 +173,44 @@ fn one(ctx: &Ctx, rep: &mut Report, id: usize, c: usize, profile: &str) {
         let _ = w.window("prove refused (invalid opening)", || RangeProof::prove_with_rng(&mut t2, &st, &badw, &mut prng2));
         drop(badw);
     }
+    // ... refused because a value is below its promise, at the first / middle / last position (the prover has already
+    // worked through the earlier openings), and because the first opening is wrong
+    {
+        let mut pos = vec![0usize, m / 2, m - 1];
+        pos.dedup();
+        for j in pos {
+            if values[j] == u64::MAX {
+                continue;
+            }
+            let mut pr: Vec<Option<u64>> = case.promises.clone();
+            pr[j] = Some(values[j] + 1);
+            let st_bad = case.statement_with(&case.params(), &pr, seed);
+            let mut t2 = case.transcript();
+            let mut prng2 = FaultRng::new(RngKind::Healthy(rng.next_u64()));
+            let r = w.window(&format!("prove refused (promise above value at position {})", if j == 0 { "first" } else if j == m - 1 { "last" } else { "middle" }), || {
+                RangeProof::prove_with_rng(&mut t2, &st_bad, &wit, &mut prng2)
+            });
+            if r.is_ok() {
+                w.rep.note("C20: prover accepted a value below its promise (see C06 / C07)".into());
+            }
+            drop(r);
+        }
+        let mut bad = case.clone();
+        bad.blindings[0][ext - 1] += Scalar::ONE;
+        let badw = bad.witness();
+        let mut t2 = case.transcript();
+        let mut prng2 = FaultRng::new(RngKind::Healthy(rng.next_u64()));
+        let _ = w.window("prove refused (invalid first opening)", || RangeProof::prove_with_rng(&mut t2, &st, &badw, &mut prng2));
+        drop(badw);
+        if m >= 2 {
+            // fewer openings than commitments
+            let shortw = RangeWitness::init((0..m / 2).map(|j| CommitmentOpening::new(values[j], case.blindings[j].clone())).collect()).unwrap();
+            let mut t2 = case.transcript();
+            let mut prng2 = FaultRng::new(RngKind::Healthy(rng.next_u64()));
+            let _ = w.window("prove refused (too few openings)", || RangeProof::prove_with_rng(&mut t2, &st, &shortw, &mut prng2));
+            w.window("drop RangeWitness (short)", move || drop(shortw));
+        }
+    }
     // ---- verify with recovery (both modes), success and failure paths
     let ts = [case.transcript()];
     let sts = [st.clone()];
